@@ -130,7 +130,8 @@ LIFE_NOTE = ("Trusted: TLC, hooks (incl. gate hooks placed before lock acquisiti
              "1.5 s with all gorums timers far below or far beyond that period); quiescence-based rejections are re-run "
              "twice before being reported. Bounded: 2-3 requests, 2-3 stream epochs, one crash, one Close.")
 LIFE_TECH = ("TLA+ process-level spec (Channel.tla) + TLC exhaustive on quiescent invariants; TLC counterexample interleavings "
-             "replayed on real code with gates/faults; TLC trace validation (LifeTrace.tla, RoutingTrace.tla)")
+             "replayed on real code with gates/faults; TLC trace validation: every transport event against Channel.tla action by "
+             "action (ChannelTrace.tla, silent steps for unlogged reads), API-level monitors (LifeTrace.tla, RoutingTrace.tla)")
 CHECKS["C08"] = dict(
     engine="life", category="model_checking",
     text="Channel.tla models callers, send queue, sender, receiver, watcher, reconnect (RW lock with writer preference, "
